@@ -75,7 +75,7 @@ def ensure_pycode(verbose=False):
         old = sorted((d for d in os.listdir(WORK) if d.startswith('pc-') and d != 'pc-' + h
                       and os.path.isdir(os.path.join(WORK, d))),
                      key=lambda d: os.path.getmtime(os.path.join(WORK, d)))
-        for d in old[:-2]:
+        for d in old[:-int(os.environ.get('VERIF_KEEP_PC', '2'))]:
             shutil.rmtree(os.path.join(WORK, d), ignore_errors=True)
         shutil.rmtree(home, ignore_errors=True)
         os.makedirs(os.path.join(home, '.andes'))
